@@ -1,4 +1,5 @@
 import TongoProofs.Lemmas.TlRoundtrip
+import TongoProofs.Lemmas.TlBindings
 /-! Property C09 — schema compilers emit Go code that implements the schema.
 
 The theorems below are about the *schema-level semantics* `Tl.encode` / `Tl.decode` (lean/TongoModel/Tl/Codec.lean,
@@ -259,6 +260,68 @@ theorem tl_layout_facts (S : Schema) :
     | true => rfl
     | false => exact absurd ((h.1 hb).2 v hv) hne
 
+/-! ### Generator output (as extracted by translator X7, harness/tlbind) implements the schema
+
+`B : Bind.Bindings` is what X7 reads from the TEXT the TL schema compiler emits (struct declarations, the statement
+sequences of every `MarshalTL` / `UnmarshalTL`, guards, tag literals, client methods, decoder table);
+`Bind.agreeAll S B` is the decidable matcher. The theorems hold for EVERY schema and EVERY such `B`; the matcher is
+evaluated (a) by the kernel for the shipped lite_api.tl / generated.go (C10: `Gen.bindings_agree`), (b) by the compiled
+Lean driver for every sampled schema of this property (op `tlc.bind`). -/
+
+open Tongo.Tl.Bind in
+/-- **steps_eq_schema** (proved once, for every schema `S` and every bindings value `B` the matcher accepts): for a type
+`ty` whose references resolve (`tyRefsOk`) and every value `v` the schema encodes to `bs`, the Go value `rep S ty v` that
+carries `v` in the generated structs is (1) marshalled by the generated `MarshalTL` step sequences to exactly `bs` and
+(2) read back by the generated `UnmarshalTL` step sequences from `bs` followed by anything, leaving exactly the rest —
+which is also what the schema decoder returns (3). -/
+theorem steps_eq_schema (S : Schema) (B : Bindings) (hwf : WFSchema S) (hA : agreeAll S B = true) (ty : Ty) (v : Val)
+    (bs : Bytes) (fuel : Nat) (hty : ty ≠ .tru) (hrefs : tyRefsOk S B ty = true) (henc : encode S ty v = some bs)
+    (hfuel : 3 * v.depth ≤ fuel) :
+    marshalGo B fuel (goTyOf ty) (rep S ty v) = some bs ∧
+    (∀ rest, unmarshalGo B fuel (goTyOf ty) (bs ++ rest) = .ok (rep S ty v, rest)) ∧
+    (∀ rest, decode S fuel ty (bs ++ rest) = .ok (v, rest)) :=
+  ⟨(marshal_all S B (typesAgree_of_agreeAll hA)).1 ty v bs fuel hty hrefs henc hfuel,
+   fun rest => (unmarshal_all S B hwf (typesAgree_of_agreeAll hA)).1 ty v bs rest fuel hty hrefs henc hfuel,
+   fun rest => tl_decode_encode S hwf ty v bs rest fuel henc (by omega)⟩
+
+open Tongo.Tl.Bind in
+/-- the same at the level of ONE generated struct: the `MarshalTL` body of the struct `<Ctor>C` of a single-constructor
+type writes `encodeFields` of that constructor, its `UnmarshalTL` body (started on the zero struct) reads it back -/
+theorem method_steps_eq_schema (S : Schema) (B : Bindings) (hwf : WFSchema S) (hA : agreeAll S B = true) (d : Decl)
+    (hd : d ∈ S.types) (h1 : (S.ctorsOf d.result).length = 1) (vs : List Val) (bs : Bytes) (fuel : Nat)
+    (henc : encodeFields S d.fields [] vs = some bs) (hfuel : 3 * depthList vs + 1 ≤ fuel) :
+    ∃ m, B.find (camelGo d.ctor ++ "C") = some (.simple m) ∧
+      runMarshal B fuel m.fields m.marshal (repFields S d.fields vs) = some bs ∧
+      ∀ rest, runUnmarshal B fuel m.fields m.unmarshal (zeroStruct m.fields) (bs ++ rest)
+        = .ok (repFields S d.fields vs, rest) := by
+  obtain ⟨m, hm, hag⟩ := bare_binding (typesAgree_of_agreeAll hA) hd h1
+  exact ⟨m, hm, method_marshal (typesAgree_of_agreeAll hA) hag vs bs fuel henc hfuel,
+    fun rest => method_unmarshal hwf (typesAgree_of_agreeAll hA) hag vs bs rest fuel henc hfuel⟩
+
+open Tongo.Tl.Bind in
+/-- the request wrappers, answer handling and decoder table of the generated client, for every schema and every
+extracted output the matcher accepts: (1) the payload of method `CamelCase f` is `encodeRequest S f ps`; (2) the decoder
+table maps these bytes back to `f` and the parameters; (3) answers: the encoding of any value of the result type is
+returned as that value, the encoding of a `liteServer.error` as that error -/
+theorem client_steps_eq_schema (S : Schema) (B : Bindings) (hwf : WFSchema S) (hA : agreeAll S B = true) (f : String)
+    (d e : Decl) (hf : S.func? f = some d) (he : S.ctor? errorCtor = some e)
+    (herr : tyRefsOk S B (.bare errorCtor) = true) (fuel : Nat) (rest : Bytes) :
+    ∃ m, B.methods.find? (fun m => m.name == camelGo f) = some m ∧
+      (∀ ps bs, encodeRequest S f ps = some bs → 3 * depthList ps + 2 ≤ fuel →
+        clientRequest B fuel m (.tuple (repFields S d.fields ps)) = some bs ∧
+        decoderTable B fuel (bs ++ rest) = .ok (d.id, some (f, .tuple (repFields S d.fields ps)))) ∧
+      (∀ c fs bs, encode S (.boxed d.result) (.sum c fs) = some bs → 3 * depthList fs + 5 ≤ fuel →
+        (∀ cd, S.ctorOf? d.result c = some cd → cd.id ≠ e.id) →
+        clientAnswer B fuel m (bs ++ rest) = .ok (.result (rep S (.boxed d.result) (.sum c fs)))) ∧
+      (∀ evs eb, encodeFields S e.fields [] evs = some eb → 3 * depthList evs + 5 ≤ fuel →
+        clientAnswer B fuel m (le 4 e.id ++ eb ++ rest) = .ok (.serverError (.tuple (repFields S e.fields evs)))) := by
+  obtain ⟨m, hm, h1, h2⟩ := client_answer_eq hwf hA f d e hf he herr fuel rest
+  refine ⟨m, hm, fun ps bs henc hfuel => ?_, h1, h2⟩
+  obtain ⟨m', hm', hreq⟩ := client_request_eq hA f d hf ps bs fuel henc hfuel
+  rw [hm] at hm'
+  cases hm'
+  exact ⟨hreq, decoder_table_eq hwf hA f d hf ps bs rest fuel henc hfuel⟩
+
 /-! ### The hypotheses are satisfiable (non-vacuity): a schema with a flag field, a conditional field, a vector and a
 two-constructor type, and a value of it. These are tests on literals, not proofs about all inputs. -/
 
@@ -284,5 +347,50 @@ example : encode exSchema2 (.boxed "p.T") (.sum "p.a" [.num 8, .raw [1, 2, 3], .
 
 example : encode exSchema2 (.boxed "p.T") (.sum "p.a" [.num 0, .absent, .vec []])
     = some [0xaa, 0xaa, 0xaa, 0xaa, 0, 0, 0, 0, 0, 0, 0, 0] := by decide
+
+/-- what the generator emits for `exSchema2`, as X7 reads it: struct `PItemC`, sum struct `PT` with the variants `PA`
+(guard on bit 3 of `Mode` around `S` in both methods) and `PB` -/
+def exBindings : Bind.Bindings :=
+  { types := [
+      ("PItemC", .simple { fields := [("X", .u64)], marshal := [⟨some "X", none⟩], unmarshal := [⟨some "X", none⟩] }),
+      ("PT", .sum {
+        variants := [("PA", [("Mode", .u32), ("S", .bytes), ("V", .slice (.named "PItemC"))]), ("PB", [])],
+        marshal := [
+          { sumType := "PA", tag := 0xaaaaaaaa, variant := "PA",
+            steps := [⟨some "Mode", none⟩, ⟨some "S", some ("Mode", 3)⟩, ⟨some "V", none⟩] },
+          { sumType := "PB", tag := 0xbbbbbbbb, variant := "PB", steps := [] }],
+        unmarshal := [
+          { tag := 0xaaaaaaaa, sumType := "PA", variant := "PA",
+            steps := [⟨some "Mode", none⟩, ⟨some "S", some ("Mode", 3)⟩, ⟨some "V", none⟩] },
+          { tag := 0xbbbbbbbb, sumType := "PB", variant := "PB", steps := [] }] })],
+    methods := [], decoders := [] }
+
+/-- non-vacuity of `steps_eq_schema`: the matcher accepts these bindings; it rejects them when the guard tests another
+bit, when two steps are swapped, and when a tag literal differs (tests on literals) -/
+example : Bind.agreeAll exSchema2 exBindings = true := by decide
+
+example : Bind.agreeAll exSchema2 { exBindings with types := exBindings.types.map fun (n, b) =>
+    match b with
+    | .sum s => (n, .sum { s with marshal := s.marshal.map fun k =>
+        { k with steps := k.steps.map fun st => { st with guard := st.guard.map fun (f, _) => (f, 4) } } })
+    | b => (n, b) } = false := by decide
+
+example : Bind.agreeAll exSchema2 { exBindings with types := exBindings.types.map fun (n, b) =>
+    match b with
+    | .sum s => (n, .sum { s with unmarshal := s.unmarshal.map fun k => { k with steps := k.steps.reverse } })
+    | b => (n, b) } = false := by decide
+
+example : Bind.agreeAll exSchema2 { exBindings with types := exBindings.types.map fun (n, b) =>
+    match b with
+    | .sum s => (n, .sum { s with unmarshal := s.unmarshal.map fun k => { k with tag := k.tag + 1 } })
+    | b => (n, b) } = false := by decide
+
+/-- … and through the theorem: the Go value carrying `p.a(8, [1,2,3], [p.item(5)])` is marshalled by these steps to the
+schema bytes computed above, and read back -/
+example : Bind.marshalGo exBindings 15 (.named "PT")
+      (Bind.rep exSchema2 (.boxed "p.T") (.sum "p.a" [.num 8, .raw [1, 2, 3], .vec [.tuple [.num 5]]]))
+    = some [0xaa, 0xaa, 0xaa, 0xaa, 8, 0, 0, 0, 3, 1, 2, 3, 1, 0, 0, 0, 5, 0, 0, 0, 0, 0, 0, 0] :=
+  (steps_eq_schema exSchema2 exBindings (by decide) (by decide) (.boxed "p.T") _ _ 15 (by decide) (by decide)
+    (by decide) (by decide)).1
 
 end Tongo.C09
